@@ -86,7 +86,7 @@ func c16Run(r *core.Run) {
 		plans = append(plans, plan{postBuilders[t.Int(4, "c16.builder")], relayPool[t.Int(len(relayPool), "c16.relay")], t.Bool("c16.signed")})
 	}
 	o := DrawOut(r, 0, true)
-	if !o.Build() {
+	if !o.PreHistory(r) || !o.Build() {
 		return
 	}
 	prevRelay := -1 // -1 none yet, 0 absent, 1 present
